@@ -68,6 +68,7 @@ pub fn instr_to_op<'a>(i: &J, t_void: u32, t_res: &dyn Fn(u64) -> wasmparser::Bl
         "unreachable" => Operator::Unreachable,
         "throw" => Operator::Throw { tag_index: 0 },
         "rcall" => Operator::ReturnCall { function_index: i["k"].as_u64().unwrap() as u32 },
+        "rcalli" => Operator::ReturnCallIndirect { type_index: 0, table_index: 0 },
         "nop" => Operator::Nop,
         "const" => Operator::I32Const { value: i["v"].as_i64().unwrap() as i32 },
         "drop" => Operator::Drop,
@@ -104,6 +105,7 @@ fn enc_instr(i: &J, f: &mut wasm_encoder::Function) {
         "unreachable" => f.instruction(&I::Unreachable),
         "throw" => f.instruction(&I::Throw(0)),
         "rcall" => f.instruction(&I::ReturnCall(i["k"].as_u64().unwrap() as u32)),
+        "rcalli" => f.instruction(&I::ReturnCallIndirect { type_index: 0, table_index: 0 }),
         "nop" => f.instruction(&I::Nop),
         "const" => f.instruction(&I::I32Const(i["v"].as_i64().unwrap() as i32)),
         "drop" => f.instruction(&I::Drop),
@@ -153,6 +155,10 @@ pub fn build_module_x(body: &[J], arity: u64, nlocals: u32, imports_only: bool) 
         funcs.function(4);
         m.section(&funcs);
     }
+    // table 0 holds op 3 in slot 0 (return_call_indirect)
+    let mut tables = TableSection::new();
+    tables.table(TableType { element_type: RefType::FUNCREF, minimum: 1, maximum: None, table64: false, shared: false });
+    m.section(&tables);
     // tag 0 (no parameters) for `throw`
     let mut tags = TagSection::new();
     tags.tag(TagType { kind: TagKind::Exception, func_type_idx: 0 });
@@ -163,6 +169,7 @@ pub fn build_module_x(body: &[J], arity: u64, nlocals: u32, imports_only: bool) 
     // function 0 is declared (ref.func 0 in the body)
     let mut elems = ElementSection::new();
     elems.declared(Elements::Functions(std::borrow::Cow::Borrowed(&[0])));
+    elems.active(Some(0), &ConstExpr::i32_const(0), Elements::Functions(std::borrow::Cow::Borrowed(&[3])));
     m.section(&elems);
     if imports_only {
         return m.finish();
@@ -278,6 +285,7 @@ pub fn decode_body(bytes: &[u8]) -> Result<(Vec<J>, Vec<String>), String> {
                         Operator::Return => json!({"o":"return"}),
                         Operator::Unreachable => json!({"o":"unreachable"}),
                         Operator::Throw { tag_index: 0 } => json!({"o":"throw"}),
+                        Operator::ReturnCallIndirect { type_index: 0, table_index: 0 } => json!({"o":"rcalli"}),
                         Operator::ReturnCall { function_index } => {
                             let name = fnames.get(*function_index as usize).cloned().unwrap_or_default();
                             match name.strip_prefix("op").and_then(|x| x.parse::<u32>().ok()) {
